@@ -103,4 +103,12 @@ theorem readPackedLen_writePackedLen (n : Nat) (rest : Bytes) (h : n < 2 ^ 24) :
     simp only [bind, Except.bind, if_true]
     exact readUIntLE_toLE 3 n rest (by omega)
 
+theorem if_ok {α : Type} {c : Prop} [Decidable c] {x : Except Err α} {e : Err} {b : α} :
+    (if c then x else .error e) = .ok b ↔ c ∧ x = .ok b := by
+  split <;> simp_all
+
+theorem map_ok {α β : Type} {f : α → β} {x : Except Err α} {b : β} :
+    f <$> x = Except.ok b ↔ ∃ a, x = .ok a ∧ f a = b := by
+  cases x <;> simp [Functor.map, Except.map]
+
 end ReplayModel
